@@ -311,7 +311,8 @@ RHEADERS = [
     [],
     [("Content-Type", "application/octet-stream"), ("X-Latin", "café")],
 ]
-RBODY = b"{\"k\": 1}\r\n0\r\n\r\n\x00\xffend.."   # contains what looks like a chunk terminator
+RBODY = b"{\"k\": 1}\r\n0\r\n\r\n\x00\xffend.." * 14   # contains what looks like a chunk terminator
+LENS = [0, 1, 3, 10, 17, 26, 255, 300]     # around the decimal/hex digit boundaries of chunk-size and Content-Length
 ERRORS = [
     dict(status=400),
     dict(status=404, title="Missing", detail="no such thing"),
@@ -334,12 +335,15 @@ def h_resp(sym, framing, maxlen, nstatus=len(STATUSES)):
         plan["ssel"] = sym.choice("status", 2 if framing == "nocontent" else nstatus)
         plan["hsel"] = sym.choice("headers", len(RHEADERS))
         if framing not in ("empty-len0", "empty-nolen", "empty-nolen-close", "nocontent"):
-            n = sym.int("blen", 0, maxlen)
-            k1 = sym.int("k1", 0, maxlen)
-            k2 = sym.int("k2", 0, maxlen)
-            sym.assume(k1 <= k2)
-            sym.assume(k2 <= n)
-            plan["n"], plan["k1"], plan["k2"] = sym.realize(n), sym.realize(k1), sym.realize(k2)
+            # body length: symbolic index into LENS; cut points: symbolic positions 0 <= c1 <= c2 <= 3 on the
+            # grid (0, 1, n//2, n) -- the engine enumerates the feasible (length, c1, c2) triples
+            li = sym.int("blen", 0, maxlen)
+            c1 = sym.int("k1", 0, 3)
+            c2 = sym.int("k2", 0, 3)
+            sym.assume(c1 <= c2)
+            n = LENS[sym.realize(li)]
+            grid = sorted((0, min(1, n), n // 2, n))
+            plan["n"], plan["k1"], plan["k2"] = n, grid[sym.realize(c1)], grid[sym.realize(c2)]
         if framing == "write-callable":
             plan["withlen"] = sym.flag("withlen")
         if framing in ("chunked", "close"):
@@ -473,7 +477,7 @@ def obligations(tier):
     advs = ADV_Q if quick else list(range(len(ADV)))
     methods = ["GET", "HEAD", "PUT", "POST", "DELETE", "post"] if quick else METHODS
     maxlen = 4 if quick else 12
-    rmax = 3 if quick else 8
+    rmax = 5 if quick else len(LENS) - 1
     nstatus = 5 if quick else len(STATUSES)
     budget = 240 if quick else 900
     out = []
@@ -497,6 +501,6 @@ def obligations(tier):
         if fr in ("close", "empty-nolen-close"):
             covers.append("read-until-close")
         out.append(Ob("response/" + fr, h_resp, dict(framing=fr, maxlen=rmax, nstatus=nstatus), budget=budget, covers=covers,
-                      bounds=dict(statuses=STATUSES[:nstatus], header_sets=len(RHEADERS), body_len=[0, rmax],
-                                  pieces="3 pieces cut at 0<=k1<=k2<=len (symbolic)", errors=len(ERRORS))))
+                      bounds=dict(statuses=STATUSES[:nstatus], header_sets=len(RHEADERS), body_len=LENS[:rmax + 1],
+                                  pieces="3 pieces cut at positions c1<=c2 of the grid (0,1,n//2,n) (symbolic)", errors=len(ERRORS))))
     return out
